@@ -498,6 +498,29 @@ type modClause struct {
 }
 
 func (g *gen) contractCall(instr ssa.Instruction, callee *ssa.Function, con *Contract, args []string, bindings []ssa.Value, st *state) []string {
+	if len(con.Private) > 0 && g.opts.functional {
+		if ci, ok := instr.(ssa.CallInstruction); ok {
+			for _, pn := range con.Private {
+				for i, p := range callee.Params {
+					if p.Name() != pn || i >= len(ci.Common().Args) {
+						continue
+					}
+					ok := false
+					switch a := ci.Common().Args[i].(type) {
+					case *ssa.Call:
+						ok = g.privLists[a]
+					case *ssa.Parameter:
+						ok = g.privParams[a]
+					}
+					cond := "true"
+					if !ok {
+						cond = "false"
+					}
+					g.oblige("pre", "call "+callee.Name()+" requires "+pn+" to be a list nobody else holds", instr.Pos(), cond, nil)
+				}
+			}
+		}
+	}
 
 	var names []string
 	var tys []types.Type
@@ -633,6 +656,10 @@ func (g *gen) contractCallGeneric(instr ssa.Instruction, con *Contract, sig *typ
 				return g.privateKeep(name, r)
 			}
 			conds := []string{app("<=", r, preTop)}
+			if name == listValHeap {
+				// list elements are addressed through their list: pre-existing means the list was
+				conds = []string{app("<=", app("elList", r), preTop)}
+			}
 			strong := false
 			if calleeRO != "" && g.condFramed(name) {
 				if calleeRO != "true" {
@@ -694,6 +721,9 @@ func (g *gen) contractCallGeneric(instr ssa.Instruction, con *Contract, sig *typ
 			continue
 		}
 		g.assume(g.specBool(post, en.Expr))
+	}
+	if ci, ok := instr.(ssa.CallInstruction); ok {
+		g.assumeNotPrivate(ci.Common(), sig, res)
 	}
 	return res
 }
@@ -944,6 +974,10 @@ func (g *gen) frameCall(instr ssa.Instruction, cname string, mods []modClause, p
 		} else {
 			sk := g.newConst("sk.obj", "Int")
 			allowed := []string{app(">", sk, g.top0), sEq(sk, "0")}
+			if m.heap == listValHeap {
+				// the elements of a list allocated by this function are as fresh as the list
+				allowed = append(allowed, app(">", app("elList", sk), g.top0))
+			}
 			for _, cm := range g.callerMods() {
 				if cm.heap == m.heap {
 					allowed = append(allowed, cm.member(sk))
